@@ -76,7 +76,7 @@ int GraphDependency::activate(DataStack& activating_data) noexcept {
       BABYLON_VERIF_POINT("af:dep_act_1");
       // 无condition，激活target
       if (_condition == nullptr) {
-        _established = true;
+        _established.store(true, ::std::memory_order_relaxed);
         auto acquired_depend = !_mutable ? _target->acquire_immutable_depend()
                                          : _target->acquire_mutable_depend();
         if (ABSL_PREDICT_FALSE(!acquired_depend)) {
